@@ -43,16 +43,24 @@ func executeFlush(db *DB, flushAction memStoreFlushAction) error {
 
 	gen := atomic.AddUint64(&db.currentGeneration, uint64(1))
 	writePath := filepath.Join(db.basePath, fmt.Sprintf(SSTablePattern, gen))
-	err := os.MkdirAll(writePath, 0700)
+	// the table is written into a temporary folder and renamed into place once it is complete: a half-written
+	// table folder must never be visible under its final name, because Open would fail on it after a crash.
+	// An unflagged folder with the compaction prefix is discarded by the recovery (repairCompactions).
+	tmpPath, err := os.MkdirTemp(db.basePath, SSTableCompactionPathPrefix)
 	if err != nil {
 		return err
 	}
 
 	err = memStoreToFlush.FlushWithTombstones(
-		sstables.WriteBasePath(writePath),
+		sstables.WriteBasePath(tmpPath),
 		sstables.WithKeyComparator(db.cmp),
 		sstables.WriteBufferSizeBytes(int(db.writeBufferSizeBytes)),
 		sstables.BloomExpectedNumberOfElements(numElements))
+	if err != nil {
+		return err
+	}
+
+	err = os.Rename(tmpPath, writePath)
 	if err != nil {
 		return err
 	}
